@@ -131,11 +131,11 @@ class Scenario:
 
     # ---------------------------------------------------------------- model protocol
     def model_ok(self):
-        """True when the scenario stays inside the fragment the Lean interpreter covers exactly
-        (channels, timers, cancel, deadlines; no kernel objects)."""
+        """True when the scenario stays inside the fragment the Lean interpreter covers (channels, timers, cancel, deadlines,
+        pipe streams and process waits with the kernel's answers as input); not: calls that fail argument validation."""
         def ok(stmts):
             for st in stmts:
-                if st[0] in ("read", "readt", "write", "writet", "chunk", "pwait", "exitproc", "closew", "closer", "settle", "raw"):
+                if st[0] in ("settle", "raw"):
                     return False
                 if st[0] == "deadline" and not ok([st[2]]):
                     return False
@@ -144,7 +144,7 @@ class Scenario:
             return True
         return ok(self.main)
 
-    def model_lines(self):
+    def model_lines(self, klines=()):
         """One scenario = lines  `new` / `chan <name> <cap>` / `fiber <name> <n>` ... / `run`.
         Statement tokens are prefix-coded, see lean/Driver/C07.lean."""
         fibers = []
@@ -170,6 +170,18 @@ class Scenario:
                 return t
             if k == "deadline":
                 return ["deadline", str(ms1000(st[1]))] + enc_wait(st[2])
+            if k == "read":
+                return ["read", st[1] + "r", str(st[2])]
+            if k == "chunk":
+                return ["chunk", st[1] + "r", str(st[2])]
+            if k == "readt":
+                return ["readt", st[1] + "r", str(st[2]), str(ms1000(st[3]))]
+            if k == "write":
+                return ["write", st[1] + "w", str(st[2])]
+            if k == "writet":
+                return ["writet", st[1] + "w", str(st[2]), str(ms1000(st[4]))]
+            if k == "pwait":
+                return ["pwait", st[1]]
             raise ValueError(st)
 
         def enc(stmts, name):
@@ -189,6 +201,12 @@ class Scenario:
                     toks.append("dump %s" % st[1])
                 elif k == "count":
                     toks.append("count %s" % st[1])
+                elif k == "closew":
+                    toks.append("closestream %sw" % st[1])
+                elif k == "closer":
+                    toks.append("closestream %sr" % st[1])
+                elif k == "exitproc":
+                    toks.append("exitproc %s" % st[1])
                 else:
                     raise ValueError(st)
             fibers.append((name, toks))
@@ -196,6 +214,13 @@ class Scenario:
         lines = ["new %s" % self.id]
         for c, cap in self.chans.items():
             lines.append("chan %s %d" % (c, cap))
+        for p in self.pipes:
+            lines.append("stream %sr" % p)
+            lines.append("stream %sw" % p)
+        for k in self.procs:
+            lines.append("proc %s" % k)
+        for kl in klines:
+            lines.append("k" + kl[1:])
         for name, toks in fibers:
             lines.append("fiber %s %d" % (name, len(toks)))
             for t in toks:
